@@ -249,10 +249,12 @@ public:
 
         QString pattern;
         if (suffix.isEmpty()) {
-            pattern = QStringLiteral("^%1\\.\\d{4}-\\d{2}-\\d{2}\\.\\d+(\\.gz)?$")
+            pattern = QStringLiteral("^%1\\.(?<date>\\d{4}-\\d{2}-\\d{2})\\.(?<index>\\d+)"
+                                     "(\\.gz)?$")
                           .arg(QRegularExpression::escape(baseName));
         } else {
-            pattern = QStringLiteral("^%1\\.\\d{4}-\\d{2}-\\d{2}\\.\\d+\\.%2(\\.gz)?$")
+            pattern = QStringLiteral("^%1\\.(?<date>\\d{4}-\\d{2}-\\d{2})\\.(?<index>\\d+)"
+                                     "\\.%2(\\.gz)?$")
                           .arg(QRegularExpression::escape(baseName),
                                QRegularExpression::escape(suffix));
         }
@@ -268,9 +270,15 @@ public:
             }
         }
 
-        std::sort(result.begin(), result.end(), [](const QString &a, const QString &b) {
-            return QFileInfo(a).lastModified() < QFileInfo(b).lastModified();
-        });
+        // Oldest first: by the date and index encoded in the rotated file name (the rotation
+        // order); modification times tie within the timestamp granularity
+        const auto key = [&re](const QString &path) {
+            const auto match = re.match(QFileInfo(path).fileName());
+            return qMakePair(match.captured(QStringLiteral("date")),
+                             match.captured(QStringLiteral("index")).toInt());
+        };
+        std::sort(result.begin(), result.end(),
+                  [&key](const QString &a, const QString &b) { return key(a) < key(b); });
 
         return result;
     }
